@@ -47,7 +47,7 @@ pub fn rl_allow(args: &[String]) -> String {
     for &rate in &[20u8, 1, 3, 7, 15, 60, 100, 255] {
         let i = (1000 / rate as u64) * 1_000_000;
         for cap in 0..=LIMITER_MAX_BURST {
-            for k in 0..=(LIMITER_MAX_BURST as u64 + 3) {
+            for k in (0..=(LIMITER_MAX_BURST as u64 + 3)).chain(250..=260).chain(510..=514) {
                 for &d in &[0i64, 1, -1, (i / 2) as i64, (i - 1) as i64] {
                     let el = (k * i) as i64 + d;
                     if el < 0 {
